@@ -3,7 +3,7 @@ import glob
 import os
 import re
 
-from .mirparse import parse_file
+from .mirparse import parse_file, SIMPLE_CONSTS
 from .values import Unsupported
 
 
@@ -49,7 +49,9 @@ class Program:
     def __init__(self, mirpath, srcdir):
         self.mirpath = mirpath
         self.srcdir = srcdir
+        SIMPLE_CONSTS.clear()
         self.funcs, self.errors = parse_file(mirpath)
+        self.simple_consts = dict(SIMPLE_CONSTS)
         if self.errors:
             raise Unsupported('MIR parse errors: %r' % (self.errors[:3],))
         self.types = {}            # name -> [TypeDef]
